@@ -820,6 +820,19 @@ def c04Step (sin sobs : Json) : Option String :=
             | [] => false)
          | none => false))
     bad.map fun u => s!"{ty}: the value written for {Val.idGet (evArgJ u)} is not the stored one with the activity id at the front of {p}"
+  else if ty == "Create" then
+    -- what is stored is exactly the activity's objects, in order: embedded ones as given, those given by IRI as fetched
+    if !succeeded then none else
+    let objs := (Val.prop facts v "object").getD []
+    let want : List (Option J) := objs.map fun j => match Val.elemOf facts j with
+      | .emb t => some (J.norm t)
+      | .iri u => phase.findSome? fun e => if e.name == "deref" && evArgS e == u then
+          (match eDoc e.resp with | some (.ok (.val d)) => some d | _ => none) else none
+      | .other _ => none
+    let got := (phase.filter fun e => e.name == "create").map fun e => some (evArgJ e)
+    if want.all (·.isSome) && got != want then
+      some s!"Create: the values stored {got.map fun o => o.map Val.idGet} are not exactly the activity's objects (embedded as given, by IRI as fetched), in order"
+    else none
   else if ty == "Follow" then
     let me := (phase.find? fun e => e.name == "actorForInbox").bind fun e => (jget e.resp "ok").getStr?.toOption
     let objIds := match Val.prop facts v "object" with
@@ -935,7 +948,18 @@ def c16Step (sin sobs : Json) : Option String :=
             let newItems := (Val.rawList nv key).getD []
             if ty == "Add" then newItems == oldItems ++ opIds.map J.str
             else newItems == oldItems.filter fun j => match Val.toId facts (Val.elemOf facts j) with | .ok id => !opIds.contains id | .error _ => true))
-       bad.map fun u => s!"{ty}: the collection written for {Val.idGet (evArgJ u)} is not the stored one with exactly the object ids {if ty == "Add" then "appended" else "removed"}")
+       let updates := phase.filter fun e => e.name == "update"
+       -- every owned target that was loaded and is a collection (pages included) is written back
+       let skipped := gets.find? fun g =>
+         let old := J.norm (toJ (jget g.resp "ok"))
+         let isCol := facts.isOrExt "OrderedCollection" (Val.typeName old) || facts.isOrExt "Collection" (Val.typeName old)
+         let key := if facts.isOrExt "OrderedCollection" (Val.typeName old) then "orderedItems" else "items"
+         let itemsOk := ((Val.rawList old key).getD []).all fun j => match Val.toId facts (Val.elemOf facts j) with | .ok id => id != nilIri | .error _ => false
+         !isErr g.resp && isCol && (ty == "Add" || itemsOk) && !opIds.isEmpty && !opIds.contains nilIri &&
+           !(updates.any fun u => Val.idGet (evArgJ u) == Val.idGet old)
+       match bad with
+       | some u => some s!"{ty}: the collection written for {Val.idGet (evArgJ u)} is not the stored one with exactly the object ids {if ty == "Add" then "appended" else "removed"}"
+       | none => skipped.map fun g => s!"{ty}: the owned target {Val.idGet (J.norm (toJ (jget g.resp "ok")))} was loaded but never written back")
   else if faulty then none
   else if !(jstr sobs "err" == "nil" && (entry == "send" || evs.any fun e => e.name == "writeHeader" && (e.args.getD 0 Json.null).getNat?.toOption == some 201)) then none
   else if ty == "Like" then
